@@ -501,7 +501,12 @@ func (c *context) jsonPBlob(code int, callback string, i interface{}) (err error
 
 func (c *context) json(code int, i interface{}, indent string) error {
 	c.writeContentType(MIMEApplicationJSON)
-	c.response.Status = code
+	if c.response.Committed {
+		// the status line is already on the wire; keep Status equal to what was sent
+		c.echo.Logger.Warn("response already committed")
+	} else {
+		c.response.Status = code
+	}
 	return c.echo.JSONSerializer.Serialize(c, i, indent)
 }
 
